@@ -264,9 +264,8 @@ func (s *Solver) Check(conds []*Term, wantModel bool) (SolverResult, Model) {
 		fmt.Fprintf(&sb, "(assert %s)\n", s.ref(c))
 	}
 	sb.WriteString("(check-sat)\n")
-	s.send(sb.String())
 	res := Unknown
-	// hard deadline: z3's -t is only a soft limit
+	// hard deadline (covers a blocked write as well): z3's -t is only a soft limit
 	killed := false
 	timer := time.AfterFunc(s.timeout+5*time.Second, func() {
 		killed = true
@@ -275,6 +274,7 @@ func (s *Solver) Check(conds []*Term, wantModel bool) (SolverResult, Model) {
 		}
 	})
 	defer timer.Stop()
+	s.send(sb.String())
 	line, err := s.readLine()
 	for err == nil && line == "" {
 		line, err = s.readLine()
